@@ -1,11 +1,11 @@
 SPECIFICATION Spec
 CONSTANTS
-  Mode = "expr"
+  Mode = "chain"
   MaxDepth = 1
   ChainSize = "quick"
-  WithSem = TRUE
-  WithText = "lits"
+  WithSem = FALSE
+  WithText = "none"
   ExcludeDevs = {"AsLiteralUnsignedNil", "TimeStringEquality", "FloatModZeroNaN", "SubMinDurationWraps"}
   RootOps = {"+", "-", "*", "/", "%", "&", "|", "^", "=", "!=", "<", "<=", ">", ">=", "AND", "OR"}
-INVARIANTS GenWellTyped ModelPreserves RepairedPreserves ModelIdempotent
+INVARIANTS ChainWellTyped
 CHECK_DEADLOCK FALSE
